@@ -3,10 +3,15 @@
 package autoconf
 
 // C45 harness.  Modes (VERIF_MODE):
-//   payload : emit the byte payload of configuration versions 1..8 (base64)
-//   update  : serve payload C45_VER on the fixed URL C45_URL and let a real Client fetch it into
-//             the cache root C45_ROOT (run by the driver under strace to record the write programme);
-//             C45_CACHESIZE = n >= 1 configures WithCacheSize(n), 0 = the default
+//   payload : emit the byte payload of configuration versions 1..8 (base64) and their HTTP validators
+//             (ETag, Last-Modified)
+//   update  : serve payload C45_VER (with its validators) on the fixed URL C45_URL and let a real Client
+//             fetch it into the cache root C45_ROOT (run by the driver under strace to record the write
+//             programme); C45_CACHESIZE = n >= 1 configures WithCacheSize(n), 0 = the default
+//   refresh : for every {"dir": root, "cs": n, "ver": v} input line: a restarted client (new Client on
+//             that crash-state cache) runs a real refresh (GetLatest) against a server that still serves
+//             payload v -- 304 Not Modified when the request carries the matching validator, 200 with the
+//             same payload otherwise -- and then another new client runs GetCached(); result as in read
 //   read    : for every {"dir": root, "cs": n} input line run GetCached() on that (crash-state) cache
 //             with a client configured with the same cache size as the interrupted writer and
 //             classify the result: version v >= 1 (deep-equal to payload v), 0 = built-in fallback,
@@ -55,6 +60,35 @@ func c45Payload(ver int) []byte {
 	return b
 }
 
+// HTTP validators of version ver: all versions have validators of the same length, none a prefix of another
+func c45Etag(ver int) string { return fmt.Sprintf("\"c45-%d-etag\"", ver) }
+func c45LM(ver int) string {
+	return time.Date(2026, 1, 1, ver, 0, 0, 0, time.UTC).Format(http.TimeFormat)
+}
+
+// c45Handler serves the payload of version ver() like a static file server: validators on every answer,
+// 304 to a matching If-None-Match, else (only without If-None-Match) to a matching If-Modified-Since
+func c45Handler(ver func() int, seen func(status int)) http.Handler {
+	return http.HandlerFunc(func(w http.ResponseWriter, r *http.Request) {
+		v := ver()
+		w.Header().Set("ETag", c45Etag(v))
+		w.Header().Set("Last-Modified", c45LM(v))
+		inm, ims := r.Header.Get("If-None-Match"), r.Header.Get("If-Modified-Since")
+		if (inm != "" && inm == c45Etag(v)) || (inm == "" && ims != "" && ims == c45LM(v)) {
+			w.WriteHeader(http.StatusNotModified)
+			if seen != nil {
+				seen(http.StatusNotModified)
+			}
+			return
+		}
+		w.Header().Set("Content-Type", "application/json")
+		w.Write(c45Payload(v))
+		if seen != nil {
+			seen(http.StatusOK)
+		}
+	})
+}
+
 func c45Sentinel() *Config {
 	return &Config{AutoConfVersion: 424242, AutoConfSchema: SupportedAutoConfSchema}
 }
@@ -64,12 +98,14 @@ func TestVerifC45(t *testing.T) {
 	switch vMode() {
 	case "payload":
 		for v := 1; v <= c45MaxVer; v++ {
-			vEmit(M{"ver": v, "data": base64.StdEncoding.EncodeToString(c45Payload(v))})
+			vEmit(M{"ver": v, "data": base64.StdEncoding.EncodeToString(c45Payload(v)), "etag": c45Etag(v), "lm": c45LM(v)})
 		}
 	case "update":
 		c45Update(t)
 	case "read":
 		c45Read(t)
+	case "refresh":
+		c45Refresh(t)
 	default:
 		t.Skip("no VERIF_MODE")
 	}
@@ -93,10 +129,7 @@ func c45Update(t *testing.T) {
 	if err != nil {
 		t.Fatalf("listen %s: %v", u.Host, err)
 	}
-	srv := &http.Server{Handler: http.HandlerFunc(func(w http.ResponseWriter, r *http.Request) {
-		w.Header().Set("Content-Type", "application/json")
-		w.Write(c45Payload(ver))
-	})}
+	srv := &http.Server{Handler: c45Handler(func() int { return ver }, nil)}
 	go srv.Serve(ln)
 	defer srv.Close()
 	cs := vEnvInt("C45_CACHESIZE", 0)
@@ -125,8 +158,7 @@ func c45Update(t *testing.T) {
 	vEmit(M{"ev": "updated", "ver": ver, "got": got, "err": e, "cacheDir": dir, "cs": c.cacheSize})
 }
 
-func c45Read(t *testing.T) {
-	rawURL := os.Getenv("C45_URL")
+func c45Want(t *testing.T) map[int]*Config {
 	want := map[int]*Config{}
 	for v := 1; v <= c45MaxVer; v++ {
 		var c Config
@@ -135,6 +167,81 @@ func c45Read(t *testing.T) {
 		}
 		want[v] = &c
 	}
+	return want
+}
+
+// classify a GetCached() result: version v >= 1, 0 = the fallback, -1 = anything else
+func c45Classify(cfg *Config, want map[int]*Config) (int, string) {
+	switch {
+	case cfg == nil:
+		return -1, "nil config"
+	case reflect.DeepEqual(cfg, c45Sentinel()):
+		return 0, ""
+	}
+	for v, w := range want {
+		if reflect.DeepEqual(cfg, w) {
+			return v, ""
+		}
+	}
+	return -1, fmt.Sprintf("config with AutoConfVersion=%d equals no fetched payload", cfg.AutoConfVersion)
+}
+
+func c45Refresh(t *testing.T) {
+	want := c45Want(t)
+	cur, status := 0, 0
+	// the cache directory of a client is derived from its URL: the restarted client must use the URL of the
+	// interrupted one
+	rawURL := os.Getenv("C45_URL")
+	u, err := url.Parse(rawURL)
+	if err != nil {
+		t.Fatal(err)
+	}
+	ln, err := net.Listen("tcp", u.Host)
+	if err != nil {
+		t.Fatalf("listen %s: %v", u.Host, err)
+	}
+	srv := &http.Server{Handler: c45Handler(func() int { return cur }, func(st int) { status = st })}
+	go srv.Serve(ln)
+	defer srv.Close()
+	n := 0
+	for i, raw := range vIn() {
+		var in struct {
+			Dir string `json:"dir"`
+			CS  int    `json:"cs"`
+			Ver int    `json:"ver"`
+		}
+		if err := json.Unmarshal(raw, &in); err != nil {
+			t.Fatal(err)
+		}
+		cur, status = in.Ver, 0
+		// restart: a new client on the crash state; its refresh interval never keeps it from asking the server
+		c, err := NewClient(c45Opts(in.CS, WithCacheDir(in.Dir), WithURL(rawURL), WithRefreshInterval(time.Nanosecond),
+			WithFallback(c45Sentinel))...)
+		if err != nil {
+			t.Fatal(err)
+		}
+		ctx, cancel := context.WithTimeout(context.Background(), 20*time.Second)
+		_, rerr := c.GetLatest(ctx)
+		cancel()
+		e := ""
+		if rerr != nil {
+			e = rerr.Error()
+		}
+		// the later cached read (again a new client: no in-memory state)
+		c2, err := NewClient(c45Opts(in.CS, WithCacheDir(in.Dir), WithURL(rawURL), WithFallback(c45Sentinel))...)
+		if err != nil {
+			t.Fatal(err)
+		}
+		res, detail := c45Classify(c2.GetCached(), want)
+		vEmit(M{"i": i, "result": res, "detail": detail, "status": status, "err": e})
+		n++
+	}
+	vEmit(M{"summary": true, "n": n})
+}
+
+func c45Read(t *testing.T) {
+	rawURL := os.Getenv("C45_URL")
+	want := c45Want(t)
 	n := 0
 	for i, raw := range vIn() {
 		var in struct {
@@ -148,23 +255,7 @@ func c45Read(t *testing.T) {
 		if err != nil {
 			t.Fatal(err)
 		}
-		cfg := c.GetCached()
-		res, detail := -1, ""
-		switch {
-		case cfg == nil:
-			detail = "nil config"
-		case reflect.DeepEqual(cfg, c45Sentinel()):
-			res = 0
-		default:
-			for v, w := range want {
-				if reflect.DeepEqual(cfg, w) {
-					res = v
-				}
-			}
-			if res == -1 {
-				detail = fmt.Sprintf("config with AutoConfVersion=%d equals no fetched payload", cfg.AutoConfVersion)
-			}
-		}
+		res, detail := c45Classify(c.GetCached(), want)
 		vEmit(M{"i": i, "result": res, "detail": detail})
 		n++
 	}
